@@ -64,7 +64,9 @@ impl<M: MemBuilder> AnyVecRaw<M> {
         let mut cloned = self.clone_empty();
 
         // 2. allocate
-        cloned.mem.expand(self.len);
+        // `reserve` expands only if `self.len` elements do not fit already
+        // (fixed capacity Mem can not expand at all).
+        cloned.reserve(self.len);
 
         // 3. copy/clone
         {
